@@ -38,6 +38,15 @@ fn step_zbdd(s: &mut Mach, ins: &Instr, model: &mut Model, ctx: &mut RunCtx) -> 
             let b = *base;
             s.exec_eval(ins, model, ctx, |s| vec![Some(Ok(s.mref.with_manager_shared(|m| if b { F::base(m) } else { F::empty(m) })))])
         }
+        Restrict { a, pos, neg, .. } => {
+            let n = model.n;
+            let mask = if n >= 32 { !0 } else { (1u32 << n) - 1 };
+            let (p, ng) = (*pos & !*neg & mask, *neg & mask);
+            s.exec_eval(ins, model, ctx, |s| {
+                let f = s.reg(*a).unwrap();
+                vec![Some(make_cube(s, p, ng, n).and_then(|c| f.restrict(&c)))]
+            })
+        }
         ZSingleton { v, .. } => {
             let v = *v as u32;
             s.exec_eval(ins, model, ctx, |s| vec![Some(s.mref.with_manager_shared(|m| F::singleton(m, v)))])
